@@ -323,6 +323,7 @@ fn programs(tier: Tier) -> Vec<Program> {
     shape(o, "tuple struct", Item { body: Some("(pub u8);".into()), ..base("S1") });
     shape(o, "tuple struct (2)", Item { body: Some("(pub u8, pub String);".into()), ..base("S1") });
     shape(o, "unit struct", Item { body: Some(";".into()), ..base("S1") });
+    shape(o, "tuple struct without fields", Item { body: Some("();".into()), ..base("S1") });
     shape(o, "union", Item { keyword: "union", members: vec![field("a: u8"), field("b: u16")], ..base("S1") });
     {
         let mut te = base("TE");
@@ -331,6 +332,12 @@ fn programs(tier: Tier) -> Vec<Program> {
         let mut te = base("TE");
         te.members.insert(0, field("C(i32, u8)"));
         shape(o, "variant with unnamed data first (tagged)", te);
+        let mut te = base("TE");
+        te.members.push(field("C()"));
+        shape(o, "tuple variant without fields (tagged)", te);
+        let mut te = base("TE");
+        te.members.insert(0, field("C()"));
+        shape(o, "tuple variant without fields first (tagged)", te);
         let mut ue = base("UE");
         ue.members.push(Member { attrs: vec![], decl: "C".into(), inner: Some(vec![field("x: u8")]) });
         shape(o, "data-carrying enum without tag", ue);
